@@ -76,7 +76,15 @@ def main(argv=None):
         i, n = args.shard.split('/')
         ctx = core.Ctx(prop, tier, seed, shard=int(i), nshards=int(n), budget_s=budget)
         monitor.attach_all()
-        mod.run(ctx)
+        try:
+            mod.run(ctx)
+        except env.Inconclusive as e:
+            ctx.inconclusive.append(str(e))
+        except Exception:
+            # a workload that dies half-way: what the monitors recorded until then still counts
+            # (violations are violations), but the run can no longer be 'held'
+            ctx.inconclusive.append('shard %s: workload raised %s' % (
+                args.shard, traceback.format_exc().strip().splitlines()[-1][:300]))
         ctx.dump(args.shard_out)
         return 0
 
@@ -93,6 +101,8 @@ def main(argv=None):
             mod.run(ctx)
         except env.Inconclusive as e:
             failures.append(str(e))
+        except Exception:
+            failures.append('workload raised %s' % traceback.format_exc().strip().splitlines()[-1][:300])
         calls = dict(monitor.CALLS)
         sweep = monitor.sweep_report()
         n_internal = len(monitor.INTERNAL_ERRORS)
